@@ -5,6 +5,27 @@ ROOT = os.path.dirname(os.path.dirname(os.path.abspath(__file__)))
 
 # id -> (category, technique, level text, level note, design_ref)
 CHECKS = {
+ "C04": ("exploration",
+         "bounded-exhaustive enumeration of calendars-as-words over {N,B,S} x month-boundary positions x dates x modifiers x flags on the real roll, vs linear-search specification",
+         "Every calendar roll can distinguish on an 8-day (11-day) window, at every month-boundary position on three anchors, in three realisations, plus all built-in calendars over every date 1970-2200 and all week masks; every modifier and both settlement flags. Complete within the window bound.",
+         "Trusted: the calendar's own is_bus_day/is_settlement (checked by C06/C07); civil-date model cross-checked against chrono.",
+         "DESIGN.md §4 C04"),
+ "C05": ("exploration",
+         "bounded-exhaustive enumeration of holiday words x week masks x every i8 day count x flags on the real add_bus_days/lag/add_days/bus_date_range, vs index arithmetic on the business-day list",
+         "Every holiday/settlement word on a one-week window over periodic week masks, every start date, EVERY i8 count, both flags; named calendars over years of dates x every i8 and over every date 1970-2200 x a count menu.",
+         "Trusted: the calendar's own predicates; civil-date model.",
+         "DESIGN.md §4 C05"),
+ "C06": ("exploration",
+         "bounded-exhaustive enumeration of small unions, name strings, token strings and equality scenarios on the real calendars vs AND-of-members model and a reference grammar",
+         "All unions of 1-3 members / 0-2 settlement calendars over holiday subsets and week masks; all name strings list|list of lists of length 1-2 over a name alphabet x every date 1970-2200; all token strings up to length 5 (6); equality scenarios at the range boundaries in every operand form.",
+         "Trusted: single built-in calendars as given (C07); reference grammar in the harness.",
+         "DESIGN.md §4 C06"),
+ "C08": ("exploration",
+         "exhaustive enumeration of every start date 1970-2200 x month offsets x 35 roll kinds on the real add_months/get_roll/get_imm/get_eom vs civil-date arithmetic",
+         "Complete over every date of the supported range, offsets -40..40 (-130..130) and +-{48,...,1200}, all roll kinds; per-month functions for every month of 1600-2409; other modifiers equal roll(unadjusted).",
+         "Trusted: civil-date model (Hinnant algorithms), cross-checked against chrono.",
+         "DESIGN.md §4 C08"),
+
  "C01": ("exploration",
          "bounded-exhaustive enumeration of expression programs (<=3-4 operators) on the real Dual, lock-step against a reference model",
          "Every expression program with at most 3 operators (4 in the thorough tier) over 6 leaves, 10 unary and 4 binary operators in all float/dual operand mixes and owned/borrowed forms is run on the real code and compared with plain f64 evaluation and the true gradient; complete within that bound, no sampling.",
